@@ -4,3 +4,5 @@ pub mod query;
 pub mod recvfilter;
 pub mod hworld;
 pub mod h_traffic;
+pub mod h_adv;
+pub mod h_replay;
